@@ -81,6 +81,33 @@ func init() {
 		}
 		return &sched.Scenario{Cfg: sim.Config{N: n}, Seed: append(seed, out...), Asked: asked}
 	})
+	// ffchain:<n>:<at>:<p1>:<gap>:<steps>:<minAnchor>
+	// key n joins with fast-sync (request at <at>) and fast-forwards at seed position <p1> from the best anchor; key n+1
+	// asks to join (fast-sync as well) four steps later and fast-forwards, <gap> steps after <p1>, from the FIRST
+	// JOINER ONLY - a node that itself started from a frame - as soon as that node offers an anchor with index >=
+	// minAnchor ("any honest node can serve any other": the frame a reset node computes must be the frame everybody
+	// computes).
+	sched.RegisterScenario("ffchain", func(p []string) *sched.Scenario {
+		n, at, p1, gap, steps, minAnchor := atoi(p[1]), atoi(p[2]), atoi(p[3]), atoi(p[4]), atoi(p[5]), atoi(p[6])
+		seed := sched.FairSeed(nodesOf(n), at, 4)
+		seed = append(seed, sched.Action{K: "Start", A: n, B: 0, Lim: 1}, sched.Action{K: "J", A: n, B: 0})
+		asked := map[int]int{n: 0, n + 1: 1}
+		var out []sched.Action
+		for i, a := range sched.FairSeed(nodesOf(n+1), p1+4, 5) {
+			if i >= p1 {
+				out = append(out, sched.Action{K: "FF", A: n})
+			}
+			out = append(out, a)
+		}
+		out = append(out, sched.Action{K: "FF", A: n}, sched.Action{K: "Start", A: n + 1, B: 1, Lim: 1}, sched.Action{K: "J", A: n + 1, B: 1})
+		for i, a := range sched.FairSeed(nodesOf(n+2), steps, 6) {
+			if i >= gap-4 {
+				out = append(out, sched.Action{K: "FF", A: n + 1, B: n + 1, Lim: minAnchor})
+			}
+			out = append(out, a)
+		}
+		return &sched.Scenario{Cfg: sim.Config{N: n}, Seed: append(seed, out...), Asked: asked}
+	})
 	// ffboot:<n>:<steps>:<node>:<downAt>:<uppos>:<cache>
 	// validator <node> keeps its events in a Badger database and runs with fast-sync enabled. It stops at seed
 	// position <downAt> and is restarted at <uppos> with bootstrap: it replays its own database (re-delivering
@@ -129,7 +156,7 @@ func init() {
 		var ph []Phase
 		add := func(name string, items []sched.Item) { ph = append(ph, Phase{Name: name, Items: items}) }
 		item := func(sc string) sched.Item { return sched.Item{Scenario: sc, Mode: "s3", Mons: mons, Suffix: 40} }
-		stride := 4
+		stride := 2
 		if th {
 			stride = 1
 		}
@@ -173,6 +200,18 @@ func init() {
 			}
 		}
 		add("a validator (2 of 3 / 3 of 4) on Badger with fast-sync enabled stops at d (d=10..60) and is restarted with bootstrap 0, 12 or 30 steps later: replays its database, is CatchingUp, runs Node.fastForward (anchor behind, equal to or ahead of its own last block)", fb)
+		var ch []sched.Item
+		for p1 := 28; p1 <= 60; p1 += 2 * stride {
+			for _, gap := range []int{16, 30, 50} {
+				for _, minA := range []int{1, 4} {
+					if !th && minA == 4 && gap != 30 {
+						continue
+					}
+					ch = append(ch, item(fmt.Sprintf("ffchain:3:5:%d:%d:110:%d", p1, gap, minA)))
+				}
+			}
+		}
+		add("a second joiner (4->5) fast-forwards from the first joiner only, i.e. from a node that itself started from a frame (first fast-forward at p, second one 16/30/50 steps later, anchor index >= 1 / 4)", ch)
 		if th {
 			name := "ffjoin:3:5:110:44:0:0"
 			add("S3 d<=1 around the joiner fast-forward at p=44 (every 2nd position, level 0)", s3Items(name, 1, seedPositions(name, 10, 0, 2), devAlphabet(nodesOf(4), 0, 0), mons, 40))
